@@ -16,7 +16,7 @@ ASSUMPTIONS = ['rows hold scalar values only (version gating of row content is C
 FEATURES = {'grid.index-none': 'mutating a grid whose id index was never built (slice-derived, or rows without earlier lookups) '
                                'raises AttributeError/TypeError'}
 EXHAUSTIVE_CLAIM = True
-INITIALS = [[], [0, 1, 2], [3, 4, 0, 2]]
+INITIALS = [[], [0, 1, 2], [3, 4, 0, 2], [8, 0, 6, 9]]
 
 
 def plan(tier, seed, excl, mode=MODE):
@@ -24,7 +24,7 @@ def plan(tier, seed, excl, mode=MODE):
     t = []
     for ii in range(len(INITIALS)):
         for d in ((1, 2, 3, 4) if q else (1, 2, 3, 4, 5)):
-            if q and d == 4 and ii != 1 and mode == 'list':
+            if q and d == 4 and (ii != 1 and mode == 'list' or ii == 3):
                 continue
             of = 1 if d < 3 else (2 if d == 3 else (8 if d == 4 else 27))
             for sh in range(of):
@@ -37,7 +37,8 @@ def run(part, args, env, mode=MODE, prop=PROPERTY):
     acc = Acc(part)
     if part == 'enum':
         n = nt = 0
-        for case in gridhist.enumerate_histories(mode, INITIALS[args['init']], args['depth'], args['shard'], args['of']):
+        for case in gridhist.enumerate_histories(mode, INITIALS[args['init']], args['depth'], args['shard'], args['of'],
+                                                 auto=(args['init'] % 2 == 1), v2=(args['init'] == 2)):
             try:
                 flags = gridhist.check_history(case, mode)
             except Violation as v:
